@@ -47,6 +47,25 @@ def knob_edits(desc):
                 yield (f"env {name}={v}", d)
 
 
+def pair_edits(desc):
+    """Two knobs changed before one build: the user edits two files, then builds."""
+    singles = list(knob_edits(desc))
+    dom = projects.DOMAINS.get(desc["fam"], {})
+    for i, (la, da) in enumerate(singles):
+        for lb, db in singles[i + 1:]:
+            ka, kb = la.split("=")[0], lb.split("=")[0]
+            if ka == kb or la.startswith("env ") or lb.startswith("env ") or ka not in dom or kb not in dom:
+                continue
+            d = copy.deepcopy(da)
+            d["knobs"][kb] = db["knobs"][kb]
+            yield (f"{la}+{lb}", d)
+
+
+def knob_and_pair_edits(desc):
+    yield from knob_edits(desc)
+    yield from pair_edits(desc)
+
+
 def source_edits(desc, kinds=("change", "delete")):
     """Edits of plain source files (not scripts): change the content, delete, restore."""
     desc = {k: v for k, v in desc.items() if k != "act"}
